@@ -1,6 +1,7 @@
 //! C23 — determinism: the same calls produce identical bytes / identical logical state.
 //!
-//! impl : every history (create; put/update/delete/card/commit/reopen/vacuum/search with EXPLICIT timestamps)
+//! impl : every history (create; put/update/delete/card/commit/reopen/search with EXPLICIT timestamps; one in eight also
+//!        vacuum, embeddings, auto-tagging, date extraction — outside the model, judged model-free)
 //!        is executed twice by two separate CHILD PROCESSES of this binary (`c23 child <batch> <dir> <tag>`), on
 //!        fresh paths in two different directories, the second run strictly later on the wall clock (so every
 //!        clock read differs), with the per-process HashMap seeds, Tantivy segment uuids and temp names the
@@ -429,6 +430,24 @@ fn judge(hist: &Value, t: &Twin, drv: &mut Option<Driver>, sum: &mut Summary, kn
     let tomb_differ = tomb_a != tomb_b;
     if created_differ { sum.branch("clock-in-card-created-at"); }
     if tomb_differ { sum.branch("clock-in-wal-tombstone"); }
+    // ---- histories outside the model's scope (vacuum, embeddings, auto-tagging, date extraction): the logical clause as above;
+    //      byte clause model-free: the regions no oracle can reach (payloads, time index, sketch track, vector index) must be identical
+    if b(hist, "ext") {
+        sum.branch("ext-history");
+        if t.file_a != t.file_b {
+            match differing_regions(&t.file_a, &t.file_b) {
+                Err(e) => sum.oracle_violation("file-not-parseable", &e, case.clone()),
+                Ok((diff, _)) => {
+                    let bad: Vec<&String> = diff.iter().filter(|k| ["payload", "time", "sketch", "vec", "mesh"].contains(&k.as_str())).collect();
+                    if !bad.is_empty() { sum.oracle_violation("file-bytes-differ-in-region-no-oracle-reaches", &format!("regions {bad:?} differ (all differing: {diff:?})"), case.clone()); }
+                    else { sum.branch("ext-bytes-differ-only-in-tainted-regions"); }
+                }
+            }
+        } else { sum.branch("ext-bytes-identical"); }
+        if verbose { println!("ext history: results A {}", t.a["results"]); }
+        sum.case(&hist.to_string(), true, || json!({"ext": true, "bytes_equal": t.file_a == t.file_b}));
+        return;
+    }
     // ---- model correspondence (run A)
     let mut may: Option<BTreeSet<String>> = None;
     let mut causes = String::new();
@@ -550,6 +569,33 @@ fn gen_history(rng: &mut Rng) -> Value {
     json!({"ops": ops, "queries": ["kiwi", "zebra", "alice"]})
 }
 
+/// histories with calls the model does not cover: vacuum, embeddings (vector index), auto-tagging, date extraction, titles and tags
+fn gen_ext_history(rng: &mut Rng) -> Value {
+    let vec = rng.bool();
+    let nops = rng.usize(2, 9);
+    let mut ops = vec![];
+    let mut puts = 0u64;
+    for _ in 0..nops {
+        match rng.below(100) {
+            0..=49 => {
+                puts += 1;
+                let text = if rng.chance(1, 4) { format!("{} Meeting on 2024-03-15 about {}.", rng.pick(FACTS), gen_text(rng)) } else { gen_text(rng) };
+                let mut o = json!({"op": "put", "text": text, "ts": 1_700_000_000 + rng.i64(-5000, 5000), "uri": format!("mv2://c23/{puts}"), "title": format!("doc {puts}"),
+                    "tags": [*rng.pick(WORDS)], "instant": rng.bool(), "triplets": rng.chance(1, 4), "auto_tag": rng.bool(), "dates": rng.bool()});
+                if vec { o["embed"] = json!((0..4).map(|_| rng.i64(-8, 8) as f64 / 4.0).collect::<Vec<_>>()); }
+                ops.push(o);
+            }
+            50..=61 => ops.push(json!({"op": "commit"})),
+            62..=73 => ops.push(json!({"op": "vacuum"})),
+            74..=81 => ops.push(json!({"op": "delete", "id": rng.below(puts + 1)})),
+            82..=89 => ops.push(json!({"op": "update", "id": rng.below(puts + 1), "text": gen_text(rng)})),
+            90..=94 => ops.push(json!({"op": "reopen"})),
+            _ => ops.push(json!({"op": "search", "q": *rng.pick(WORDS), "k": 4})),
+        }
+    }
+    json!({"ext": true, "vec": vec, "ops": ops, "queries": ["kiwi", "walnut", "alice"]})
+}
+
 /// hand-written corpus: the witnesses of the recorded findings first
 fn corpus() -> Vec<Value> {
     let q = json!(["kiwi", "zebra"]);
@@ -568,6 +614,10 @@ fn corpus() -> Vec<Value> {
         json!({"ops": [{"op": "put", "text": "kiwi walnut", "ts": 1700000000, "uri": "mv2://c23/1", "instant": true}, {"op": "put", "text": "kiwi walnut", "ts": 1700000000, "uri": "mv2://c23/2"},
             {"op": "put", "text": "kiwi walnut", "ts": 1699999999, "uri": "mv2://c23/3", "instant": true}, {"op": "search", "q": "kiwi", "k": 5}, {"op": "commit"}, {"op": "update", "id": 1, "text": "zebra quartz"},
             {"op": "delete", "id": 0}, {"op": "delete", "id": 7}, {"op": "commit"}, {"op": "delete", "id": 0}, {"op": "reopen"}, {"op": "search", "q": "kiwi", "k": 5}], "queries": q}),
+        // outside the model: vector index + vacuum + auto-tag/date extraction
+        json!({"ext": true, "vec": true, "ops": [{"op": "put", "text": "kiwi walnut. Meeting on 2024-03-15.", "ts": 1700000000, "uri": "mv2://c23/1", "title": "one", "tags": ["kiwi"], "embed": [0.5, 1.0, -1.0, 0.25], "auto_tag": true, "dates": true},
+            {"op": "put", "text": "zebra walnut", "ts": 1700000001, "uri": "mv2://c23/2", "embed": [1.0, 0.0, 0.5, 0.5], "instant": true}, {"op": "commit"}, {"op": "delete", "id": 0}, {"op": "vacuum"},
+            {"op": "put", "text": "falcon kiwi", "ts": 1699999999, "uri": "mv2://c23/3", "embed": [0.0, 0.0, 1.0, 0.5]}, {"op": "reopen"}, {"op": "search", "q": "kiwi", "k": 4}], "queries": q}),
     ]
 }
 
@@ -595,7 +645,7 @@ fn main() {
          offset, canonical payload and text digests, timeline both directions, searches with scores, cards) of the live handle and of a reopened copy, \
          file bytes region by region (regions from header/TOC); run A also compared with the Lean model (results, frames, timeline, cards, regions \
          present in file order); non-trivial = has a put or a card; distinct = whole history");
-    sum.expect_branches(&["logical-observations-equal", "bytes-identical-as-predicted", "bytes-differ", "diff-set-exactly-as-predicted", "clock-in-wal-tombstone", "clock-in-card-created-at"]);
+    sum.expect_branches(&["logical-observations-equal", "bytes-identical-as-predicted", "bytes-differ", "diff-set-exactly-as-predicted", "clock-in-wal-tombstone", "clock-in-card-created-at", "ext-history"]);
     if args.mode == "replay" {
         let case = load_replay(args.replay_file.as_ref().expect("replay file"));
         let input = case.get("input").cloned().unwrap_or(case);
@@ -614,7 +664,7 @@ fn main() {
     let mut rng = Rng::new(args.seed);
     let mut all = corpus();
     let n = if args.thorough { 150 } else { 14 };
-    for _ in 0..n { all.push(gen_history(&mut rng)); }
+    for i in 0..n { if i % 8 == 7 { all.push(gen_ext_history(&mut rng)); } else { all.push(gen_history(&mut rng)); } }
     // several child pairs, so that one process does not run everything (per-process hash seeds, global state)
     let per = if args.thorough { 20 } else { 11 };
     for chunk in all.chunks(per) {
